@@ -168,6 +168,42 @@ def compare11(expr, hist, p, cre, texts, viol, cnt, full):
     return True
 
 
+_TD11 = None
+
+
+def _files11(expr, hist, p, cre, texts, viol, cnt):
+    """the same observers through is_path=True, in the current (possibly compiled) state"""
+    global _TD11
+    if _TD11 is None:
+        _TD11 = tempfile.mkdtemp(prefix='c11_')
+        import atexit
+        atexit.register(shutil.rmtree, _TD11, True)
+    for i, t in enumerate(texts):
+        if '\r' in t:
+            continue
+        try:
+            t.encode('utf-8')
+        except UnicodeEncodeError:
+            continue
+        path = os.path.join(_TD11, 'f%d_%d.txt' % (os.getpid(), i))
+        with open(path, 'w', encoding='utf-8', newline='') as fh:
+            fh.write(t)
+        want = model11(cre, t)
+        try:
+            got = {'has_match': p.has_match(path, is_path=True), 'is_exact_match': p.is_exact_match(path, is_path=True),
+                   'get_matches': p.get_matches(path, is_path=True), 'get_matches_and_pos': p.get_matches_and_pos(path, is_path=True)}
+        except Exception as e:  # noqa: BLE001
+            got = {'has_match': 'raised ' + type(e).__name__}
+        cnt['observations'] += 4
+        for k, v in got.items():
+            if v != want[k]:
+                viol.append(V('C11|%s|%s|file|%s' % (expr, '>'.join(hist), k),
+                              f"{expr} after [{', '.join(hist)}]: {k}(path, is_path=True) on a file containing {t!r} = {v!r}, re gives {want[k]!r}",
+                              "import tempfile, os\np = %s\n%s\nf = os.path.join(tempfile.mkdtemp(), 'f.txt')\nopen(f, 'w', encoding='utf-8', newline='').write(%r)\n"
+                              "assert p.%s(f, is_path=True) == %r" % (expr, '\n'.join(EVENT_SRC[e] for e in hist), t, k, want[k])))
+                return
+
+
 def _task11(arg):
     chunk, L, depth = arg
     viol = []
@@ -203,6 +239,7 @@ def _task11(arg):
                     swept[a] = hist
                     cnt['abstract_states'] += 1
                     compare11(expr, hist, p, cre, texts, viol, cnt, False)
+                    _files11(expr, hist, p, cre, small[:12], viol, cnt)
                     # get_compiled_pattern returns an equivalent pattern object
                     cp = build(expr).get_compiled_pattern()
                     if not (cp.flags & FLAGS) == FLAGS or any(
@@ -385,6 +422,31 @@ def _task12(arg):
         bad = set()
         pc = build(expr)
         pc.compile()
+        td = tempfile.mkdtemp(prefix='c12_')
+        try:
+            for t in ('ab', 'abcab', 'a'):
+                path = os.path.join(td, 'f.txt')
+                with open(path, 'w', encoding='utf-8') as fh:
+                    fh.write(t)
+                want, ms = model12(cre, t)
+                for (meth, ie, rel), w in want.items():
+                    kw = {'include_empty': ie, 'is_path': True}
+                    if rel is not None:
+                        kw['relative_to_match'] = rel
+                    for q, state in ((p, 'plain'), (pc, 'compiled')):
+                        cnt['observations'] += 1
+                        try:
+                            got = getattr(q, meth)(path, **kw)
+                        except Exception as e:  # noqa: BLE001
+                            got = 'raised ' + type(e).__name__
+                        if got != w and ('file', meth, state) not in bad:
+                            bad.add(('file', meth, state))
+                            viol.append(V('C12|%s|%s|file|%s' % (expr, meth, state),
+                                          f"{expr} ({state}): {meth}(path, is_path=True, ...) on a file containing {t!r} = {got!r}, re gives {w!r}",
+                                          "import tempfile, os\np = %s\n%sf = os.path.join(tempfile.mkdtemp(), 'f.txt')\nopen(f, 'w', encoding='utf-8').write(%r)\n"
+                                          "assert p.%s(f, **%r) == %r" % (expr, 'p.compile()\n' if state == 'compiled' else '', t, meth, kw, w)))
+        finally:
+            shutil.rmtree(td, ignore_errors=True)
         for ti, t in enumerate(texts):
             want, ms = model12(cre, t)
             for (meth, ie, rel), w in want.items():
@@ -491,8 +553,8 @@ def _task13(arg):
                                   'import re\n%s\nt = %r\nms = [m.group(0) for m in re.finditer(str(p), t, 24)]\nps = p.split_by_match(t)\n'
                                   "assert len(ps) == len(ms) + 1 and ''.join(a + b for a, b in zip(ps, ms)) + ps[-1] == t" % (setup, t)))
             # replace
-            for count in (0, 1, 2, 3, 10):
-                for repl in ('', 'X', 'ab', '-'):
+            for count in ((0, 1, 2, 3, 10) if ti % 4 == 0 else (0, 2)):
+                for repl in ('', 'X', 'ab', '-', 'N/A', '1.5', '(x)', '$', 'a|b', '[^', '?*+', '{0}', '%s'):
                     if ('rep', count) in bad:
                         continue
                     out, idx = [], 0
@@ -658,6 +720,20 @@ def _task14(arg):
                                       f"{expr}: get_matches_with_context({text!r}, {nl}, {nr}) = {got!r}, expected {want!r}",
                                       'p = %s\nassert p.get_matches_with_context(%r, %d, %d) == %r' % (expr, text, nl, nr, want)))
                         break
+            for nl, nr, exc in ((0.0, 0, 'InvalidArgumentTypeException'), (None, None, 'InvalidArgumentTypeException'), ('', 0, 'InvalidArgumentTypeException'),
+                                (False, False, 'InvalidArgumentTypeException'), (0, False, 'InvalidArgumentTypeException'), (0, 0.0, 'InvalidArgumentTypeException'),
+                                (0, -1, 'InvalidArgumentValueException'), (-1, 0, 'InvalidArgumentValueException'), (0, None, 'InvalidArgumentTypeException'),
+                                ([], 0, 'InvalidArgumentTypeException'), (0, '', 'InvalidArgumentTypeException')):
+                for meth in ('get_matches_with_context', 'iterate_matches_with_context'):
+                    cnt['observations'] += 1
+                    try:
+                        list(getattr(p, meth)('aa', nl, nr))
+                        got = 'returned'
+                    except Exception as e:  # noqa: BLE001
+                        got = type(e).__name__
+                    if got != exc:
+                        viol.append(V('C14|%s|%s|windows=%r,%r' % (expr, meth, nl, nr), f"{expr}: {meth}('aa', {nl!r}, {nr!r}) -> {got}, expected {exc}",
+                                      "p = %s\ntry:\n    list(p.%s('aa', %r, %r))\nexcept %s:\n    pass\nelse:\n    raise AssertionError" % (expr, meth, nl, nr, exc)))
             for name in ('n_left', 'n_right'):
                 for badv, exc in ((-1, 'InvalidArgumentValueException'), (True, 'InvalidArgumentTypeException'),
                                   (1.5, 'InvalidArgumentTypeException'), ('1', 'InvalidArgumentTypeException'),
